@@ -3,6 +3,7 @@ package main
 import (
 	"fmt"
 	"io/fs"
+	"regexp"
 	"strings"
 	"time"
 
@@ -327,6 +328,8 @@ func (s *side) dump() (lines []string, rootOK bool) {
 	return lines, rootOK
 }
 
+var szRe = regexp.MustCompile(` sz\d+`)
+
 func (s *side) normLine(l string) string {
 	i := strings.Index(l, " ")
 	if i < 0 {
@@ -356,6 +359,10 @@ func (s *side) normLine(l string) string {
 			t = "!readlink:" + portableClass(strings.TrimPrefix(t, "!readlink:"))
 		case s.v.IsAbs(t):
 			t = "abs:" + s.normPath(t)
+			// the size of a link is the length of its target: an absolute target is
+			// spelled with the volume on one side only, the sizes are not comparable
+			rest = szRe.ReplaceAllString(rest[:j], " sz=abs") + rest[j:]
+			j = strings.Index(rest, " -> ")
 		default:
 			t = s.v.ToSlash(t)
 		}
